@@ -579,9 +579,9 @@ def check_sentinel(cx, chk):
         if not w.ok or not w.leftrec:
             continue
         n += 1
-        mine = [v for v in w.viol if v[0] in ("sentinel",)]
+        mine = [v for v in w.viol if v[0] in ("sentinel",) or (v[0] == "exit" and v[1] in ("update-without-store", "stored-not-best"))]
         for (rid, detail, msg, site) in mine:
-            chk.violation("C10.sentinel", ("%s %s" % (w.tag, detail)).strip(), msg, site)
+            chk.violation("C10.sentinel", ("%s %s" % (w.tag, detail)).strip(), msg + (" (a later cache hit then reports the seed sentinel or a stale failure)" if rid == "exit" else ""), site)
         if not mine:
             chk.ok("C10.sentinel", w.tag, {"wrapper": w.tag, "exit_paths_checked": True})
     chk.floor("C10.sentinel", "leftrec wrappers", n, 2)
